@@ -3,6 +3,7 @@ package e5
 import (
 	"fmt"
 	"os"
+	"os/exec"
 	"path/filepath"
 	"sort"
 	"strings"
@@ -30,9 +31,10 @@ func RunC08(tier string) int {
 		return run.Finish()
 	}
 	defer st.Cleanup()
-	n := tierN(tier, 28, 300)
+	n := tierN(tier, 32, 320)
 	kinds := []string{"mirror", "mirror", "local-first", "put-fault-then-retry", "b-get-5xx", "b-get-404", "b-get-truncated", "a-put-dropped", "b-head-5xx", "a-put-5xx-target",
-		"a-head-403", "a-head-5xx", "blobs-expired-then-B-then-C", "blobs-expired-then-B-then-C"}
+		"a-head-403", "a-head-5xx", "blobs-expired-then-B-then-C", "blobs-expired-then-B-then-C",
+		"b-restores-over-older-outputs", "b-restores-over-older-outputs"}
 	e1.Parallel(n, func(i int) {
 		r := rng.Derive(uint64(run.Seed), "C08", fmt.Sprint(i))
 		kind := kinds[i%len(kinds)]
@@ -79,7 +81,7 @@ func RunC08(tier string) int {
 		viol := func(sig, what string, obs *e1.Obs) {
 			keep = !run.Violation(sig, what, replay(obs)) || keep
 		}
-		writerRoot := rootA // the machine whose build wrote the results being audited
+		writerRoot := rootA             // the machine whose build wrote the results being audited
 		var onlyResults map[string]bool // if set: audit only these target results (the ones a given build wrote)
 		auditRemote := func(when string) bool {
 			if kind == "a-put-dropped" {
@@ -355,6 +357,70 @@ func RunC08(tier string) int {
 				return
 			}
 			run.Count("third_machine_builds_after_remote_healing", 1)
+		}
+		if kind == "b-restores-over-older-outputs" {
+			// Orders of builds: B has restored revision 1 and keeps its outputs in its checkout;
+			// A moves on to revision 2 (directory outputs change shape: sub-directories, files and
+			// symlinks come and go) and publishes it; B updates its sources and builds: whatever it
+			// restores lands on top of the revision-1 outputs and must equal A's, nothing left over.
+			side := filepath.Join(env.Dir, "b-outputs-r1")
+			_ = os.MkdirAll(side, 0755)
+			type saved struct{ abs, copy string }
+			var keepOuts []saved
+			for ti, t := range env.Spec.Targets {
+				for oi, o := range t.AllOuts() {
+					abs := spec.OutAbs(env.WS, t.Pkg, o.Path)
+					if _, err := os.Lstat(abs); err == nil {
+						c := filepath.Join(side, fmt.Sprintf("%d_%d", ti, oi))
+						if exec.Command("cp", "-a", abs, c).Run() == nil {
+							keepOuts = append(keepOuts, saved{abs, c})
+						}
+					}
+				}
+			}
+			env.M.Root = rootA
+			env.WipeOutputs()
+			edits := 0
+			for _, t := range env.Spec.Targets {
+				hasDir := false
+				for _, o := range t.AllOuts() {
+					if o.Kind == "dir" {
+						hasDir = true
+					}
+				}
+				if hasDir || r.Chance(1, 3) {
+					tt := t
+					env.Apply(func() string { tt.Salt = r.Word(4, 8); return "command-change" })
+					edits++
+				}
+			}
+			env.Logf("revision 2: commands of %d targets changed", edits)
+			if _, _, ok := step("A-revision-2", e1.BuildOpts{}, safety, true); !ok {
+				return
+			}
+			if !auditRemote("after A published revision 2") {
+				return
+			}
+			env.M.Root = rootB
+			env.WipeOutputs()
+			for _, k := range keepOuts {
+				_ = os.MkdirAll(filepath.Dir(k.abs), 0755)
+				_ = exec.Command("cp", "-a", k.copy, k.abs).Run()
+			}
+			env.Logf("B's checkout still holds the revision-1 outputs (%d paths)", len(keepOuts))
+			fs3.Reset()
+			_, obsB2, ok := step("B-revision-2-over-revision-1-outputs", e1.BuildOpts{}, safety, true)
+			if !ok {
+				return
+			}
+			r2 := 0
+			for _, t := range env.Spec.Targets {
+				if obsB2.Started[t.Label()] == 0 && len(t.AllOuts()) > 0 {
+					r2++
+				}
+			}
+			run.Count("targets_restored_on_B_over_older_outputs", r2)
+			run.Count("B_builds_over_older_outputs", 1)
 		}
 		if !auditRemoteQuiet(fs3, bucketPrefix) && kind != "a-put-dropped" && kind != "blobs-expired-then-B-then-C" {
 			auditRemote("at the end of the scenario")
